@@ -29,12 +29,12 @@ import (
 func init() {
 	Register(&Scenario{
 		Prop: "C17", Run: scenarioC17, QuickRuns: 2800, ThoroughRuns: 70000, Level: "exploration",
-		Rule:       "one run = one scenario (a world: start genome kind, option swarm, seeded deterministic fitness landscape, k epochs with the sequential executor; or an experiment: Experiment.Execute with the sequential executor and a deterministic scripted evaluator) executed once as the reference and then 1..4 more times from the same tape slice under a tape-chosen perturbation: immediately again; after unrelated work (another world evolved under another seed, heap churn, forced GC); with GOMAXPROCS 1/4/16 and GC percent 1/25/400; inside a fake-clock bubble starting at 2000-01-01 with sleeps of hours to years between epochs (and different evaluator durations for experiments); in a fresh child process of the worker binary with another GOMAXPROCS/GOGC. After construction and after every epoch (or at every evaluator entry) the canonical population dump (species ids, ages, improvement ages, membership in order; every genome with floats as bit patterns; population counters) must be identical to the reference. A case is one compared rerun; non-trivial when the scenario produced structural innovations or more than one species; distinct by (scenario hash, perturbation)",
+		Rule:       "one run = one scenario (a world: start genome kind, option swarm, seeded deterministic fitness landscape, k epochs with the sequential executor; or an experiment: Experiment.Execute with the sequential executor and a deterministic scripted evaluator) executed once as the reference and then 1..4 more times from the same tape slice under a tape-chosen perturbation: immediately again; after unrelated work (another world evolved under another seed, heap churn, forced GC); with GOMAXPROCS 1/4/16 and GC percent 1/25/400; inside a fake-clock bubble starting at 2000-01-01 with sleeps of hours to years between epochs (and different evaluator durations for experiments); in a fresh child process of the worker binary with another GOMAXPROCS/GOGC; with another process-wide log level (what loading an unrelated options file leaves behind; loggers silenced). After construction and after every epoch (or at every evaluator entry) the canonical population dump (species ids, ages, improvement ages, membership in order; every genome with floats as bit patterns; population counters) must be identical to the reference. A case is one compared rerun; non-trivial when the scenario produced structural innovations or more than one species; distinct by (scenario hash, perturbation)",
 		RealParts:  []string{"NewPopulation / NewPopulationRandom / ReadPopulation, SequentialPopulationEpochExecutor.NextEpoch with every operator beneath it, Experiment.Execute (sequential)", "math/rand global source seeded by the scenario", "Go runtime: real allocator, collector, map seeds; a real child process for the fresh-process perturbation", "time.Now / time.Since inside Experiment.Execute under the real and under the fake clock"},
 		StubParts:  []string{"fitness assignment (seeded deterministic landscape) / GenerationEvaluator (scripted, deterministic)", "wall clock in the fake-clock perturbation (testing/synctest)"},
-		FaultKinds: []string{"fault.clock_jump", "fault.heap_churn_gc", "fault.unrelated_work", "fault.gomaxprocs_change", "fault.gc_setting_change", "fault.fresh_process"},
+		FaultKinds: []string{"fault.clock_jump", "fault.heap_churn_gc", "fault.unrelated_work", "fault.gomaxprocs_change", "fault.gc_setting_change", "fault.fresh_process", "fault.log_level_change"},
 		Assumes:    []string{"the harness module declares go 1.23 so that rand.Seed seeds the global source under the go1.26 toolchain", "a panic inside the library is part of the outcome (both executions must panic at the same step); its text is not compared"},
-		ProbeNames: []string{"probe.rerun.immediately", "probe.rerun.after_unrelated_work", "probe.rerun.runtime_settings", "probe.rerun.fake_clock_jumps", "probe.rerun.fresh_process", "probe.rerun.same_start_object", "probe.scenario.world", "probe.scenario.experiment", "probe.structural_innovation", "probe.species>=2", "probe.random_world", "probe.readback_world"},
+		ProbeNames: []string{"probe.rerun.immediately", "probe.rerun.after_unrelated_work", "probe.rerun.runtime_settings", "probe.rerun.fake_clock_jumps", "probe.rerun.fresh_process", "probe.rerun.same_start_object", "probe.rerun.other_log_level", "probe.scenario.world", "probe.scenario.experiment", "probe.structural_innovation", "probe.species>=2", "probe.random_world", "probe.readback_world"},
 	})
 }
 
@@ -286,10 +286,11 @@ const (
 	pertClock
 	pertProcess
 	pertSameStart
+	pertLogLevel
 	numPerts
 )
 
-var pertNames = []string{"immediately-again", "after-unrelated-work", "runtime-settings", "fake-clock-jumps", "fresh-process", "same-start-genome-object"}
+var pertNames = []string{"immediately-again", "after-unrelated-work", "runtime-settings", "fake-clock-jumps", "fresh-process", "same-start-genome-object", "other-log-level"}
 
 var c17Junk [][]byte // keeps heap churn alive across executions so that later allocations land elsewhere
 
@@ -407,7 +408,7 @@ func scenarioC17(c *RunCtx) {
 	}
 	reruns := t.Range("reruns", 1, 4)
 	for i := 0; i < reruns; i++ {
-		w := []int{2, 3, 2, 3, 1, 2}
+		w := []int{2, 3, 2, 3, 1, 2, 2}
 		if ref.Start == nil {
 			w[pertSameStart] = 0
 		}
@@ -473,6 +474,18 @@ func scenarioC17(c *RunCtx) {
 		case pertSameStart:
 			c.Count("probe.rerun.same_start_object")
 			got = runC17(NewReplayTape(sub), c.Thorough, &c17Env{reuseStart: ref.Start})
+		case pertLogLevel:
+			// earlier unrelated work in the process: loading any options file sets the process-wide log level
+			// (neat.InitLogger). The loggers themselves stay silenced; only the level the library branches on changes
+			c.Count("probe.rerun.other_log_level")
+			c.Count("fault.log_level_change")
+			level := []string{"debug", "debug", "info", "warn"}[rng.Intn(4)]
+			detail = fmt.Sprintf(" (process-wide log level %q)", level)
+			func() {
+				defer func() { _ = neat.InitLogger("error") }()
+				_ = neat.InitLogger(level)
+				got = runC17(NewReplayTape(sub), c.Thorough, &c17Env{between: func(int) { _ = neat.InitLogger(level) }})
+			}()
 		case pertProcess:
 			c.Count("probe.rerun.fresh_process")
 			c.Count("fault.fresh_process")
